@@ -148,7 +148,7 @@ def select_plans(plans, tier, rng):
     for p in faulty:
         f = p["fault"]
         groups.setdefault((f["p"], f["sys"], f["k"], f["err"], outcome_class(p)), []).append(p)
-    per = 3 if tier == "quick" else 16
+    per = 3 if tier == "quick" else 12
     chosen = list(nofault)
     for k in sorted(groups, key=str):
         g = sorted(groups[k], key=plan_key)
@@ -625,8 +625,8 @@ def run(tier):
     chk.extra["clauses_violated_runs"] = clause_runs
     chk.assumptions = [
         "model checking is exhaustive over the configuration x single-fault space of Spawn_MC.tla (every stdio "
-        "combination on a base command; the other dimensions with two stdio tables); real executions cover every "
-        "fault-free configuration of that space and, per (fault, predicted outcome) class, %d configurations" % (3 if tier == "quick" else 16),
+        "combination on a base command and on a command using every other setting; the other dimensions with one (quick) / two (thorough) stdio tables); real executions cover every "
+        "fault-free configuration of that space and, per (fault, predicted outcome) class, %d configurations" % (3 if tier == "quick" else 12),
         "one injected failure per run; injected failures suppress the call (close: executed, result overwritten)",
         "caller/child interleaving: a third of the runs each free, caller-blocked-in-read-before-the-child-moves, "
         "child-finished-before-the-caller-closes-its-write-end (enforced by the tracer)",
